@@ -33,6 +33,8 @@ type immSummary struct {
 	Writes   bool         // the function writes through the source parameter
 	Deep     bool         // ... through a reference loaded from it (matters even when the argument is a local copy)
 	WriteAt  string       // first write found (for messages)
+	Kinds    map[string]bool // kinds of the primitive writes found, here or in the callees the value is handed to ("map update .extended")
+	Callees  map[string]bool // module functions the value is handed to and which write through it
 	Flows    map[int]bool // references derived from the source are stored into parameter j's memory
 }
 
@@ -94,6 +96,8 @@ type immEvent struct {
 	Instr ssa.Instruction
 	Fn    *ssa.Function
 	What  string
+	Callee      *ssa.Function // call-writes: the module function the value is handed to
+	CalleeParam int
 }
 
 type immResult struct {
@@ -641,6 +645,7 @@ func (s *immState) events(in ssa.Instruction, f *ssa.Function, res *immResult, c
 					if sum := s.e.summary(callee, i); (sum.Writes && s.isOwned(a)) || sum.Deep {
 						key = "-> " + p.FuncID(callee)
 						add("call-writes", fmt.Sprintf("passes %s to %s which writes through it (%s)", p.KeyTerm(a, 3), p.FuncID(callee), sum.WriteAt))
+						res.Events[len(res.Events)-1].Callee, res.Events[len(res.Events)-1].CalleeParam = callee, i
 					}
 				}
 			}
@@ -762,6 +767,30 @@ func (e *immEngine) solve() {
 				if at == "" {
 					at = e.c.P.FuncID(ev.Fn) + ": " + ev.What
 				}
+				if ev.Kind == "call-writes" && ev.Callee != nil {
+					// what the callee does with it counts as done here (so that moving a write into a helper, or
+					// renaming the helper, changes nothing)
+					if sub := e.sums[immKey{ev.Callee, ev.CalleeParam}]; sub != nil {
+						for kind := range sub.Kinds {
+							if !cur.Kinds[kind] && len(cur.Kinds) < 24 {
+								if cur.Kinds == nil {
+									cur.Kinds = map[string]bool{}
+								}
+								cur.Kinds[kind] = true
+								e.dirty = true
+							}
+						}
+					}
+					continue
+				}
+				k := eventKind(ev)
+				if !cur.Kinds[k] && len(cur.Kinds) < 24 {
+					if cur.Kinds == nil {
+						cur.Kinds = map[string]bool{}
+					}
+					cur.Kinds[k] = true
+					e.dirty = true
+				}
 			}
 			if ret && !cur.RetAlias {
 				cur.RetAlias, e.dirty = true, true
@@ -881,4 +910,46 @@ func zeroCap(v ssa.Value) bool {
 		lo = l
 	}
 	return mx == lo
+}
+
+// eventKind: the operation of a primitive write and the struct field it goes through (spelling-independent).
+func eventKind(ev immEvent) string {
+	field := ""
+	var addr ssa.Value
+	switch x := ev.Instr.(type) {
+	case *ssa.Store:
+		addr = x.Addr
+	case *ssa.MapUpdate:
+		addr = x.Map
+	case ssa.CallInstruction:
+		if len(x.Common().Args) > 0 {
+			addr = x.Common().Args[0]
+		}
+	}
+	for d := 0; d < 6 && addr != nil; d++ {
+		switch a := addr.(type) {
+		case *ssa.FieldAddr:
+			field = "." + fieldOwner(a) + "." + fieldName(a)
+			addr = nil
+		case *ssa.UnOp:
+			addr = a.X
+		case *ssa.IndexAddr:
+			addr = a.X
+		case *ssa.Slice:
+			addr = a.X
+		default:
+			addr = nil
+		}
+	}
+	return ev.Kind + field
+}
+
+// KindList: the write kinds of a summary, sorted.
+func (s *immSummary) KindList() []string {
+	var out []string
+	for k := range s.Kinds {
+		out = append(out, k)
+	}
+	sort.Strings(out)
+	return out
 }
